@@ -122,18 +122,18 @@ func objClass(o string) string {
 
 // Exec is the result of one execution.
 type Exec struct {
-	Points      []Point
-	Choices     []int
-	Panic       string // non-empty if a thread panicked (value + stack)
-	PanicThread string
-	Deadlock    string // non-empty on deadlock (wait-for description)
-	Horizon     bool   // step limit hit
-	Divergence  string // replay divergence (harness error)
-	SleepBlocked bool  // abandoned: every enabled thread was in the sleep set (redundant execution)
-	LiveThreads []string // threads (created through Go) still alive when main returned
-	Races       []Race
-	Steps       int
-	Trace       []string // per step "T<id>:<label>" (only when Sched.KeepTrace)
+	Points       []Point
+	Choices      []int
+	Panic        string // non-empty if a thread panicked (value + stack)
+	PanicThread  string
+	Deadlock     string   // non-empty on deadlock (wait-for description)
+	Horizon      bool     // step limit hit
+	Divergence   string   // replay divergence (harness error)
+	SleepBlocked bool     // abandoned: every enabled thread was in the sleep set (redundant execution)
+	LiveThreads  []string // threads (created through Go) still alive when main returned
+	Races        []Race
+	Steps        int
+	Trace        []string // per step "T<id>:<label>" (only when Sched.KeepTrace)
 }
 
 // Failed reports whether the execution ended abnormally.
@@ -162,7 +162,7 @@ type Sched struct {
 	lockVCs    map[interface{}]*lockVC
 	mainDone   bool
 	clock      int
-	lockNames map[interface{}]string
+	lockNames  map[interface{}]string
 }
 
 // lockName returns a name for the lock that is stable across executions of the same schedule
